@@ -97,7 +97,8 @@ namespace xsimd
         template <class A, class T>
         XSIMD_INLINE batch_bool<T, A> is_even(batch<T, A> const& self, requires_arch<generic>) noexcept
         {
-            return is_flint(self * T(0.5));
+            // self * 0.5 underflows to an even value for the smallest subnormals: require an integer first
+            return is_flint(self) && is_flint(self * T(0.5));
         }
 
         // is_flint
@@ -112,7 +113,8 @@ namespace xsimd
         template <class A, class T>
         XSIMD_INLINE batch_bool<T, A> is_odd(batch<T, A> const& self, requires_arch<generic>) noexcept
         {
-            return is_even(self - T(1.));
+            // self - 1 is rounded for non-integers next to an integer and absorbed beyond 2^digits
+            return is_flint(self) && !is_flint(self * T(0.5));
         }
 
         // isinf
